@@ -38,7 +38,7 @@ CORR = (1, 2, 3, 4, 5, 6, 7, 8)
 ORACLE = (9, 11, 12, 13, 14, 15, 16, 21, 22, 23)
 # oracle tags that are excused when the guard g_no_upgrade is false (tag 201), the model explains the run
 # (no correspondence tag) and the finding is listed open
-EXCUSED = {21: 'C15-LOST-WAKEUP-UPGRADE', 22: 'C15-MUTUAL-UPGRADE-DEADLOCK'}
+EXCUSED = {21: 'C15-LOST-WAKEUP-UPGRADE', 22: 'C15-MUTUAL-UPGRADE-DEADLOCK'}   # 21 is fixed (01dac8d): open_finding() is None, a recurrence is a VIOLATION
 
 
 # ------------------------------------------------------------------ generator
@@ -1036,8 +1036,15 @@ def users_oracle(ctx, sites):
     return results
 
 
+def dedupe_findings(ctx):
+    """known_findings.d (staging, read after known_findings.json) replaces entries of the same id, exactly as the
+    maintainer's merge does: a finding marked fixed in the staging file is not excused any more."""
+    ctx.findings = list({f['id']: f for f in ctx.findings}.values())
+
+
 def run(ctx):
     from harness.lib.core import JOBS
+    dedupe_findings(ctx)
     ctx.build_gate(['C15'])
     ctx.trusted += [
         'harness/props/c15_vsched.py: virtual Lock/RLock/Condition/get_ident with the documented CPython semantics '
@@ -1138,6 +1145,7 @@ def run(ctx):
 
 
 def replay(ctx, rep):
+    dedupe_findings(ctx)
     if rep.get('static'):
         table, problems, refused = lock_mode_table()
         print('lock modes requested by the users of path_lock:', json.dumps(table, indent=1))
